@@ -58,6 +58,9 @@ fn clock_level(o: &Opts, model: &mut Model, rep: &mut Report, only3: Option<(boo
         let mut r = rng.fork();
         let (m128, waits): (bool, Vec<usize>) = match &only {
             Some(x) => x.clone(),
+            // every T-state of a whole frame and the start of the next, one T at a time, on both machines:
+            // the INT line and the frame wrap at every single offset
+            None if run < 2 => (run == 1, vec![1usize; frame_len(run == 1) + 40]),
             None => {
                 let m128 = r.bool();
                 let l = frame_len(m128);
@@ -121,9 +124,10 @@ fn clock_level(o: &Opts, model: &mut Model, rep: &mut Report, only3: Option<(boo
             if *fc < 40 || l.saturating_sub(*fc) < 40 {
                 rep.class(format!("{} offset {} int {}", m128, fc, int));
             }
-            let case = format!("waits {} {} {}", if m128 { 128 } else { 48 }, waits[..=i].iter().map(|w| format!("{:x}", w)).collect::<Vec<_>>().join(","),
+            let mk_case = || format!("waits {} {} {}", if m128 { 128 } else { 48 }, waits[..=i].iter().map(|w| format!("{:x}", w)).collect::<Vec<_>>().join(","),
                 pre.iter().map(|v| format!("{:02x}", v)).collect::<Vec<_>>().join(","));
             if got != spec {
+                let case = mk_case();
                 // shrink: the prefix up to here is the failing history; keep it as it is (already minimal in length
                 // for the first failure)
                 viol(rep, Kind::SpecViolated, &format!("C05/clock/{}", if (tot % l < 32) != *int { "int-window" } else { "time-not-conserved" }),
@@ -132,6 +136,7 @@ fn clock_level(o: &Opts, model: &mut Model, rep: &mut Report, only3: Option<(boo
                 break;
             }
             if got != answers[i + base_lines] {
+                let case = mk_case();
                 viol(rep, Kind::ModelMismatch, "C05/clock/model", format!("after waits summing to {} T: {} vs model {}", tot, got, answers[i + base_lines]),
                     case, got, answers[i + base_lines].clone());
                 break;
